@@ -53,7 +53,7 @@ func allEntries() []*Entry {
 			e.AllocK = 4 << 20 // constant work of one call (error values, log formatting, fixed-size tables) stays below 2.5 MB
 		}
 		if strings.Contains(e.Name, "Receipt") {
-			e.AllocC = 4000 // an empty stored receipt (2 bytes on the wire) decodes to a Receipt with a 256-byte bloom, log slice, big.Ints: ~11 KB
+			e.AllocC = 12000 // (ReadReceipts runs two readers) an empty stored receipt (2 bytes on the wire) decodes to a Receipt with a 256-byte bloom, log slice, big.Ints: ~11 KB
 		}
 	}
 	return es
@@ -90,6 +90,7 @@ func (s *sweep) fail(sig, what string, c Case) {
 
 func (s *sweep) exec(e *Entry, in []byte, mut string) outcome {
 	o := guarded(e.Fn, in)
+	Times[e.Name] += o.dur
 	s.rep.Evaluations++
 	s.rep.Count("entry:" + e.Name)
 	cl := mutClass(mut)
@@ -102,7 +103,11 @@ func (s *sweep) exec(e *Entry, in []byte, mut string) outcome {
 		s.fail(e.Name+":timeout", fmt.Sprintf("%s did not return within %s on a %d-byte input (%s)", e.Name, callTimeout, len(in), mut), c)
 	case o.fatal:
 		s.rep.Count("outcome:fatal-exit")
-		s.fail(e.Name+":fatal-exit:"+o.site, fmt.Sprintf("%s calls logger.Fatal (process exit) on a %d-byte input (%s): %s", e.Name, len(in), mut, shortStack(o.stack)), c)
+		sig := e.Name + ":fatal-exit:" + o.site
+		if strings.HasPrefix(e.Name, "rawdb.") {
+			sig = "rawdb:fatal-exit:" + o.site // one class: the chain-database readers end the process on an undecodable stored value
+		}
+		s.fail(sig, fmt.Sprintf("%s calls logger.Fatal (process exit) on a %d-byte input (%s): %s", e.Name, len(in), mut, shortStack(o.stack)), c)
 	case o.panicked:
 		s.rep.Count("outcome:panic")
 		s.fail(e.Name+":panic:"+o.site, fmt.Sprintf("%s panics (%s) on a %d-byte input (%s): %s", e.Name, o.val, len(in), mut, shortStack(o.stack)), c)
@@ -151,8 +156,14 @@ func (s *sweep) corpus(tier string) {
 	// one field at a time: every site x every applicable mutation
 	for _, e := range s.entries {
 		for pi, p := range e.Protos {
-			if tier != "thorough" && pi >= 2 && len(e.Protos) > 3 && !(pi == 2 && strings.Contains(e.Name, "ShareView")) {
-				continue // the per-field sweep of the remaining variants runs in the thorough tier (they are mutated randomly in quick)
+			if tier != "thorough" {
+				q := e.Quick
+				if q == 0 {
+					q = 1
+				}
+				if pi >= q {
+					continue // swept field by field in the thorough tier; mutated randomly in quick
+				}
 			}
 			ss := sites(p)
 			for idx, st := range ss {
@@ -163,6 +174,23 @@ func (s *sweep) corpus(tier string) {
 					}
 					s.exec(e, b, fmt.Sprintf("field:%s proto#%d %s", kind, pi, path))
 				}
+			}
+		}
+	}
+	// JSON documents / RLP trees: one node at a time
+	for _, e := range s.entries {
+		for si, seed := range e.Seeds {
+			var vs []variant
+			switch e.Format {
+			case "json":
+				vs = jsonVariants(seed)
+			case "rlp":
+				vs = rlpVariants(seed, 0)
+			case "rlp1":
+				vs = rlpVariants(seed, 1)
+			}
+			for _, v := range vs {
+				s.exec(e, v.b, fmt.Sprintf("node:%s seed#%d", v.desc, si))
 			}
 		}
 	}
@@ -268,6 +296,9 @@ func Run(rng *hlib.Rng, rep *hlib.Report, n int, tier string, budget time.Durati
 
 // Warnings of the last Run (valid seeds that are rejected): diagnostics for the dev driver.
 var Warnings []string
+
+// Times: cumulated time per entry (dev diagnostics).
+var Times = map[string]time.Duration{}
 
 // ReplayMap runs exactly one recorded case.
 func ReplayMap(c map[string]any, rep *hlib.Report) {
